@@ -15,6 +15,7 @@ import (
 	"os/exec"
 	"path/filepath"
 	"sort"
+	"strconv"
 	"strings"
 	"sync"
 	"time"
@@ -265,11 +266,12 @@ func (s *Script) text(upto *Obligation, withModel bool, values []string) string 
 	}
 	emitDecls(len(s.Decls))
 	ai := 0
-	for _, o := range s.Obs {
+	for oi, o := range s.Obs {
 		for ; ai < o.NAsm; ai++ {
 			fmt.Fprintf(&b, "(assert %s) ; %s\n", s.Asms[ai].T, s.Asms[ai].Why)
 		}
-		fmt.Fprintf(&b, "(push 1)\n(assert %s)\n(assert (not %s))\n(echo \"@@ %s\")\n(check-sat)\n(pop 1)\n", o.PC, o.Goal, strings.ReplaceAll(o.Name, "\"", "'"))
+		// results are matched by position, never by name (several sub-goals may share a name)
+		fmt.Fprintf(&b, "(push 1)\n(assert %s)\n(assert (not %s))\n(echo \"@@ %d %s\")\n(check-sat)\n(pop 1)\n", o.PC, o.Goal, oi, strings.ReplaceAll(o.Name, "\"", "'"))
 	}
 	return b.String()
 }
@@ -342,31 +344,37 @@ func (s *Script) solveAll(timeoutS int, seed int, allSolvers bool) (solverErr st
 	}
 	batch := s.text(nil, false, nil)
 	out, dur := runSolver(solvers[0], batch, timeoutS, seed, time.Duration(timeoutS*len(s.Obs)+30)*time.Second)
-	res := map[string]string{}
-	cur := ""
+	res := map[int]string{}
+	cur := -1
 	for _, ln := range strings.Split(out, "\n") {
 		ln = strings.TrimSpace(ln)
 		if strings.HasPrefix(ln, "(error") && solverErr == "" {
 			solverErr = ln
 		}
 		if strings.HasPrefix(ln, "@@ ") || strings.HasPrefix(ln, "\"@@ ") {
-			cur = strings.Trim(strings.TrimPrefix(strings.Trim(ln, "\""), "@@ "), "\"")
+			f := strings.Fields(strings.Trim(ln, "\""))
+			cur = -1
+			if len(f) >= 2 {
+				if n, err := strconv.Atoi(f[1]); err == nil {
+					cur = n
+				}
+			}
 			continue
 		}
-		if cur != "" && (ln == "sat" || ln == "unsat" || ln == "unknown" || ln == "timeout") {
+		if cur >= 0 && (ln == "sat" || ln == "unsat" || ln == "unknown" || ln == "timeout") {
 			res[cur] = ln
-			cur = ""
-		} else if cur != "" && strings.HasPrefix(ln, "(error") {
+			cur = -1
+		} else if cur >= 0 && strings.HasPrefix(ln, "(error") {
 			res[cur] = "error: " + ln
-			cur = ""
+			cur = -1
 		}
 	}
 	per := dur.Milliseconds() / int64(len(s.Obs))
 	var wg sync.WaitGroup
 	sem := make(chan struct{}, 8)
-	for _, o := range s.Obs {
+	for oi, o := range s.Obs {
 		o := o
-		r := res[strings.ReplaceAll(o.Name, "\"", "'")]
+		r := res[oi]
 		if r == "unsat" && !allSolvers {
 			o.Status, o.Solver, o.TimeMS = "proved", solvers[0].name, per
 			continue
